@@ -60,11 +60,11 @@ Section Rx.
     destruct (closed s) eqn:Ec; [discriminate|].
     destruct (unprot d) as [[[[tpn n] hdr] ct]|] eqn:Eu; [|discriminate].
     destruct (aead_open (expand (largest s) tpn n) hdr ct) as [p0|] eqn:Eo.
-    - rewrite Ec in H. destruct (sw_check (window s) (expand (largest s) tpn n)) eqn:Ew; try discriminate.
+    - destruct (sw_check (window s) (expand (largest s) tpn n)) eqn:Ew; try discriminate.
       injection H as <- <- <-. apply ideal_aead in Eo as [Hin ->].
       repeat split; auto. exists tpn, n, hdr. auto.
-    - cbn [closed] in H. destruct (integrity_limit <=? failures s + 1); [discriminate|].
-      destruct (sw_check (window s) (expand (largest s) tpn n)); discriminate.
+    - destruct (sw_check (window s) (expand (largest s) tpn n)); try discriminate.
+      destruct (integrity_limit <=? failures s + 1); discriminate.
   Qed.
 
   Lemma rx_not_processed : forall s d s' code, rx s d = (s', (code, None)) ->
@@ -74,11 +74,10 @@ Section Rx.
     destruct (closed s) eqn:Ec; [injection H as <- _; auto|].
     destruct (unprot d) as [[[[tpn n] hdr] ct]|] eqn:Eu; [|injection H as <- _; auto].
     destruct (aead_open (expand (largest s) tpn n) hdr ct) as [p0|] eqn:Eo.
-    - rewrite Ec in H. destruct (sw_check (window s) (expand (largest s) tpn n)); try discriminate;
+    - destruct (sw_check (window s) (expand (largest s) tpn n)); try discriminate;
         injection H as <- _; auto.
-    - cbn [closed] in H. destruct (integrity_limit <=? failures s + 1);
-        [injection H as <- _; auto|].
-      destruct (sw_check (window s) (expand (largest s) tpn n)); injection H as <- _; auto.
+    - destruct (sw_check (window s) (expand (largest s) tpn n)); [|injection H as <- _; auto..].
+      destruct (integrity_limit <=? failures s + 1); injection H as <- _; auto.
   Qed.
 
   Lemma rx_result_shape : forall s d, (exists pn p, snd (rx s d) = (0%Z, Some (pn, p))) \/ (exists code, snd (rx s d) = (code, None)).
@@ -87,9 +86,9 @@ Section Rx.
     destruct (closed s) eqn:Ec; [right; eexists; reflexivity|].
     destruct (unprot d) as [[[[tpn n] hdr] ct]|]; [|right; eexists; reflexivity].
     destruct (aead_open _ hdr ct) as [p0|].
-    - rewrite Ec. destruct (sw_check _ _); [left; do 2 eexists; reflexivity| |]; right; eexists; reflexivity.
-    - cbn [closed]. destruct (integrity_limit <=? failures s + 1); [right; eexists; reflexivity|].
-      destruct (sw_check _ _); right; eexists; reflexivity.
+    - destruct (sw_check _ _); [left; do 2 eexists; reflexivity| |]; right; eexists; reflexivity.
+    - destruct (sw_check _ _); [|right; eexists; reflexivity..].
+      destruct (integrity_limit <=? failures s + 1); right; eexists; reflexivity.
   Qed.
 
   (* ---- forged_no_effect: a datagram that is not authentic changes nothing the application or the
@@ -109,9 +108,9 @@ Section Rx.
       unfold RxPipeline.rx in E. rewrite Hc in E.
       destruct (unprot d) as [[[[tpn n] hdr] ct]|]; [|injection E as <- _; exact Hc].
       destruct (aead_open _ hdr ct) as [p0|].
-      + rewrite Hc in E. destruct (sw_check _ _); try discriminate; injection E as <- _; exact Hc.
-      + cbn [closed] in E. destruct (N.leb_spec integrity_limit (failures s + 1)); [lia|].
-        destruct (sw_check _ _); injection E as <- _; reflexivity.
+      + destruct (sw_check _ _); try discriminate; injection E as <- _; exact Hc.
+      + destruct (sw_check _ _); [|injection E as <- _; reflexivity..].
+        destruct (N.leb_spec integrity_limit (failures s + 1)); [lia|]. injection E as <- _; reflexivity.
   Qed.
 
   (* a replayed packet number has no effect either, authentic or not *)
@@ -122,7 +121,7 @@ Section Rx.
     intros s d pn p (tpn & n & hdr & Hu & He & Hin) Hw. cbn zeta. unfold RxPipeline.rx.
     destruct (closed s) eqn:Ec; [auto|]. rewrite Hu, He.
     assert (Ho : aead_open pn hdr (seal pn hdr p) = Some p) by (apply ideal_aead; auto).
-    rewrite Ho, Ec.
+    rewrite Ho.
     destruct (sw_check (window s) pn) eqn:Ew; cbn [fst]; auto.
     exfalso. exact (sw_check_ok_not_in _ _ Ew Hw).
   Qed.
@@ -266,4 +265,107 @@ Proof.
   replace (0 <? Z.pos p)%Z with true by reflexivity.
   replace (Z.to_nat (Z.pos p) <=? k)%nat with true by (symmetry; apply Nat.leb_le; lia).
   cbn [andb]. replace (Z.to_nat (Z.pos p) - 1)%nat with (N.to_nat (N.pos p - 1)) by lia. exact H3.
+Qed.
+
+(* ---- the executable instance run by the harness model IS an ideal AEAD ---- *)
+Lemma in_table_iff : forall tbl pn p, in_table tbl pn p = true <-> In (pn, p) tbl.
+Proof.
+  intros tbl pn p. unfold in_table. rewrite existsb_exists. split.
+  - intros ([a b] & Hin & H). cbn [fst snd] in H. apply andb_prop in H as [H1 H2].
+    apply N.eqb_eq in H1. apply eqb_bytes_eq in H2. subst. exact Hin.
+  - intros H. exists (pn, p). split; [exact H|]. cbn [fst snd]. now rewrite N.eqb_refl, eqb_bytes_refl.
+Qed.
+
+Theorem x_instance_ideal : forall tbl n a c p,
+  x_open tbl n a c = Some p <-> (In (n, a, p) (x_sealed tbl) /\ c = x_seal n a p).
+Proof.
+  intros tbl n a c p. unfold x_open, x_sealed, x_seal. split.
+  - destruct a as [|? ?]; [|discriminate]. destruct c as [|c0 p']; [discriminate|].
+    destruct (N.eqb_spec c0 n) as [->|]; [|discriminate]. cbn [andb].
+    destruct (in_table tbl n p') eqn:E; [|discriminate]. intros H. injection H as <-.
+    apply in_table_iff in E. split; [|reflexivity].
+    apply in_map_iff. exists (n, p'). split; [reflexivity|exact E].
+  - intros [Hin ->]. apply in_map_iff in Hin. destruct Hin as ([a0 b0] & He & Hin). cbn [fst snd] in He.
+    injection He as -> <- ->. rewrite N.eqb_refl. cbn [andb].
+    apply in_table_iff in Hin. rewrite Hin. reflexivity.
+Qed.
+
+(* ---- the executable rxpipe judgement accepts every run of the model ---- *)
+Lemma sw_check_not_ok_le : forall w pn, sw_check w pn <> WOk -> exists m, max_list w = Some m /\ pn <= m.
+Proof.
+  intros w pn H. unfold sw_check in H. destruct (max_list w) as [m|]; [|contradiction].
+  exists m. split; [reflexivity|]. destruct (N.ltb_spec m pn); [contradiction|assumption].
+Qed.
+
+Lemma map_zN_Nz' : forall l, map zN (map Nz l) = l.
+Proof. induction l as [|x l IH]; cbn [map]; [reflexivity|]. rewrite IH. unfold zN, Nz. now rewrite N2Z.id. Qed.
+
+Lemma firstn_app_exact' {A} : forall (a b : list A), firstn (length a) (a ++ b) = a.
+Proof. intros. rewrite firstn_app, Nat.sub_diag, firstn_O, app_nil_r, firstn_all. reflexivity. Qed.
+Lemma skipn_app_exact' {A} : forall (a b : list A), skipn (length a) (a ++ b) = b.
+Proof. intros. rewrite skipn_app, Nat.sub_diag, skipn_all. reflexivity. Qed.
+
+Lemma judge_run_items : forall tbl lim its s proc nf cl,
+  window s = proc -> closed s = cl -> failures s <= nf ->
+  (forall pn pay, In (IGen pn pay) its -> in_table tbl pn pay = true) ->
+  judge_items lim proc nf cl its (run_items tbl lim s its) = true.
+Proof.
+  intros tbl lim. induction its as [|it its IH]; intros s proc nf cl Hw Hc Hf Ht; [reflexivity|].
+  assert (Ht' : forall pn pay, In (IGen pn pay) its -> in_table tbl pn pay = true)
+    by (intros; apply Ht; right; assumption).
+  destruct it as [|pn pay|f]; cbn [run_items judge_items].
+  - apply IH; auto.
+  - (* unmodified copy *)
+    unfold rx. destruct (closed s) eqn:Ecl.
+    + cbn [dump app]. rewrite <- Hc. cbn [andb]. apply IH; auto.
+    + cbn [x_unprot]. unfold x_expand, x_seal.
+      assert (Ho : x_open tbl pn [] (pn :: pay) = Some pay).
+      { unfold x_open. rewrite N.eqb_refl, (Ht pn pay) by (left; reflexivity). reflexivity. }
+      rewrite Ho. destruct (sw_check (window s) pn) eqn:Ew.
+      * (* processed *)
+        cbn [dump app]. rewrite <- Hc. cbn [negb andb].
+        assert (Hl : length (map Nz pay) = length pay) by apply map_length.
+        unfold zN, Nz at 1. rewrite N2Z.id, N.eqb_refl, Nat2Z.id, Nat.eqb_refl. cbn [andb].
+        rewrite app_length, Hl. replace (Nat.leb (length pay) (length pay + _)) with true by (symmetry; apply Nat.leb_le; lia).
+        rewrite <- Hl. rewrite firstn_app_exact', skipn_app_exact'. change (fun z : Z => Z.to_N z) with zN.
+        rewrite map_zN_Nz', eqb_bytes_refl. cbn [andb].
+        assert (Hni : mem_N pn proc = false).
+        { destruct (mem_N pn proc) eqn:Em; [|reflexivity]. apply mem_N_In in Em. rewrite <- Hw in Em.
+          exfalso. exact (sw_check_ok_not_in _ _ Ew Em). }
+        rewrite Hni. cbn [negb andb]. apply IH; cbn [window closed failures]; auto. now rewrite Hw.
+      * cbn [dump app]. destruct (sw_check_not_ok_le (window s) pn) as (m & Hm & Hle); [rewrite Ew; discriminate|].
+        rewrite <- Hc, <- Hw, Hm. replace (pn <=? m) with true by (symmetry; apply N.leb_le; exact Hle).
+        cbn [negb andb Z.eqb]. apply IH; auto.
+      * cbn [dump app]. destruct (sw_check_not_ok_le (window s) pn) as (m & Hm & Hle); [rewrite Ew; discriminate|].
+        rewrite <- Hc, <- Hw, Hm. replace (pn <=? m) with true by (symmetry; apply N.leb_le; exact Hle).
+        cbn [negb andb Z.eqb]. apply IH; auto.
+  - (* garbled *)
+    unfold rx. destruct (closed s) eqn:Ecl.
+    + cbn [dump_forged app]. rewrite <- Hc. cbn [andb]. apply IH; auto.
+    + destruct f as [pn|]; cbn [x_unprot].
+      * unfold x_expand. assert (Ho : x_open tbl pn [] [] = None) by reflexivity. rewrite Ho.
+        destruct (sw_check (window s) pn) eqn:Ew.
+        -- destruct (N.leb_spec lim (failures s + 1)) as [Hl|Hl].
+           ++ cbn [dump_forged app]. rewrite <- Hc. cbn [negb andb].
+              replace (lim <=? nf + 1) with true by (symmetry; apply N.leb_le; lia). cbn [andb].
+              apply IH; cbn [bump window closed failures]; auto. lia.
+           ++ cbn [dump_forged app]. rewrite <- Hc. cbn [negb andb].
+              apply IH; cbn [bump window closed failures]; auto. lia.
+        -- cbn [dump_forged app]. rewrite <- Hc. cbn [negb andb].
+           apply IH; cbn [bump window closed failures]; auto. lia.
+        -- cbn [dump_forged app]. rewrite <- Hc. cbn [negb andb].
+           apply IH; cbn [bump window closed failures]; auto. lia.
+      * cbn [dump_forged app]. rewrite <- Hc. cbn [negb andb]. apply IH; auto. lia.
+Qed.
+
+Lemma in_table_table_of : forall its pn pay, In (IGen pn pay) its -> in_table (table_of its) pn pay = true.
+Proof.
+  intros its pn pay H. apply in_table_iff. unfold table_of. apply in_flat_map.
+  exists (IGen pn pay). split; [exact H|left; reflexivity].
+Qed.
+
+Theorem rxpipe_judge_run : forall c, judge c (run c) = true.
+Proof.
+  intros c. unfold judge, run.
+  apply judge_run_items; [reflexivity|reflexivity|cbn [init failures]; lia|apply in_table_table_of].
 Qed.
